@@ -451,6 +451,45 @@ harness(void)
 		CHECK(env_aio_completed(&uaio_at(0)) == 1 && tp.RXMSG == NULL, "delivered exactly once");
 		CHECK(s_recv_aio == NULL, "no further read without a waiting receiver");
 	}
+#elif MODE == 9
+	{
+		/* C03 / C11: the peer dies (HOW 0: the stream fails with NNG_ECONNRESET) or the receive is aborted (HOW 1) in the
+		 * MIDDLE of a message - length prefix read, message allocated, NCUT of BL payload bytes received - and the pipe is then
+		 * torn down by the reaper (p_close, p_stop, p_fini): the half-received message is released exactly once */
+		kuaio_prepare(0, 1);
+		env_aio_submit(&uaio_at(0));
+		int live0 = env_msg_live;
+		F(pipe_recv)(&tp, &uaio_at(0));
+		for (int i = 0; i < HDRSZ; i++)
+			tp.RXHEAD[i] = 0;
+#if HDRSZ == 9
+		tp.RXHEAD[0] = 1;
+#endif
+		tp.RXHEAD[HDRSZ - 1] = BL;
+		stream_done(&s_recv_aio, HDRSZ, 0);
+		CHECK(s_recv_aio != NULL && tp.RXMSG != NULL && env_msg_live == live0 + 1, "the message for the announced payload is allocated and being filled");
+#if NCUT > 0
+		stream_done(&s_recv_aio, NCUT, 0);
+		CHECK(!KDONE(0) && s_recv_aio != NULL, "a partial payload is not delivered");
+#endif
+#if HOW == 0
+		stream_done(&s_recv_aio, 0, NNG_ECONNRESET);
+		kquiesce();
+		CHECK(KDONE(0) && KRESULT(0) == NNG_ECONNRESET && nni_aio_get_msg(&uaio_at(0)) == NULL, "C01: a message cut short by the peer's death is not delivered: the receive fails");
+		WITNESS("peer died in the middle of a message");
+#else
+		nni_aio_abort(&uaio_at(0), NNG_ECANCELED);
+		kquiesce();
+		CHECK(KDONE(0) && KRESULT(0) == NNG_ECANCELED && nni_aio_get_msg(&uaio_at(0)) == NULL, "a receive aborted in the middle of a message delivers nothing");
+		WITNESS("receive aborted in the middle of a message");
+#endif
+		CHECK(env_msg_live <= live0 + 1, "the half-received message is not duplicated");
+		F(pipe_close)(&tp);
+		kquiesce();
+		F(pipe_stop)(&tp);
+		F(pipe_fini)(&tp);
+		CHECK(env_msg_live == live0, "C03: the half-received message has been released - exactly once (the message model reports a second release)");
+	}
 #elif MODE == 5
 	{
 		nni_aio user;
